@@ -481,7 +481,8 @@ def main(argv):
             continue
         path = os.path.join(REPLAYS, '%s-%s.json' % (pid, re.sub(r'[^A-Za-z0-9_.-]+', '_', v['obligation'])))
         json.dump({'property': pid, 'obligation': v['obligation'], 'verifier_message': v['message'], 'at': v['at'],
-                   'verifier_output': v['rendered'], 'input': inp}, open(path, 'w'), indent=1)
+                   'verifier_output': v['rendered'], 'input': inp,
+                   'input_raw': json.dumps(inp, separators=(',', ':')) if inp else None}, open(path, 'w'), indent=1)
         replay_paths.append(path)
         out_lines.append('VIOLATION property=%s replay=%s%s' % (pid, path, '' if inp else ' no-failing-input-found'))
         rc = 1
